@@ -150,12 +150,12 @@ def planted_files(d, pth, nu, A, Bc, C, dists, rates, n_trials, rnd, nfiles=1):
     return paths
 
 
-def native_planted(pth, nu, A, Bc, C, rnd, nfiles=1, tol=None, grids=None):
+def native_planted(pth, nu, A, Bc, C, rnd, nfiles=1, tol=None, grids=None, dists=None, half_frac=0.12):
     from panqec.analysis import Analysis
     d = tempfile.mkdtemp(prefix='c16_')
     try:
-        dists = [4, 6, 8, 10]
-        half = 0.12 * pth
+        dists = dists or [4, 6, 8, 10]
+        half = half_frac * pth
         rates = [round(pth - half + 2 * half * j / 12, 6) for j in range(13)]
         n_trials = 20000
         if grids:                   # ragged grid: distance -> its own list of error rates
@@ -224,8 +224,36 @@ def native_direct(pth, nu, A, Bc, C, order, rnd):
     return None
 
 
+def native_ansatz(pts):
+    """the fitting model is the documented ansatz at every point, also where the quadratic leaves [0, 1] (no clipping, no other transformation)"""
+    from panqec.analysis import fit_function
+    for (pv, dv, pth, nu, A, Bc, C) in pts:
+        x = (pv - pth) * dv ** nu
+        want = A + Bc * x + C * x * x
+        got = float(np.asarray(fit_function((np.array([pv]), np.array([dv])), pth, nu, A, Bc, C)).reshape(-1)[0])
+        if not np.isclose(got, want, rtol=1e-9, atol=1e-12):
+            return 'fit_function((p=%r, d=%r), p_th=%r, nu=%r, A=%r, B=%r, C=%r) = %r, the ansatz A + Bx + Cx^2 with x = (p - p_th) d^nu gives %r' % (pv, dv, pth, nu, A, Bc, C, got, want)
+    return None
+
+
+ANSATZ_POINTS = [(0.1, 5.0, 0.1, 1.0, 0.3, 1.0, 1.0), (0.12, 9.0, 0.1, 1.2, 0.3, 2.0, 1.5), (0.30, 17.0, 0.25, 0.9, 0.3, 0.5, 0.2), (0.35, 21.0, 0.25, 2.0, 0.4, 1.0, 1.0),
+                 (0.05, 13.0, 0.25, 1.0, 0.1, 1.0, 0.0), (0.2, 3.0, 0.1, 1.0, -0.5, 1.0, 1.0)]
+
+
 def replay(r):
     rnd = random.Random(0)
+    if 'ansatz' in r.get('name', ''):
+        from bounded.util import frac
+        m = r.get('model') or {}
+        pts = list(ANSATZ_POINTS)
+        try:
+            mp_ = tuple(frac(m[k_]) for k_ in ('p', 'd', 'p_th', 'nu', 'A', 'B', 'C'))
+            if mp_[1] > 0 and float(mp_[3]).is_integer():
+                pts.insert(0, mp_)
+        except Exception:       # noqa
+            pass
+        why = native_ansatz(pts)
+        return dict(confirmed=bool(why), input=dict(ansatz_points=[list(t) for t in pts[:3]]), detail=why or 'fit_function equals the ansatz on %d points incl. values outside [0, 1]' % len(pts))
     for order in ('by_distance', 'by_rate', 'shuffled', 'by_distance_desc'):
         why = native_direct(0.10, 1.0, 0.3, 1.5, 2.0, order, rnd)
         if why:
@@ -236,6 +264,12 @@ def replay(r):
 
 def replay_file(data):
     inp = (data or {}).get('input') or {}
+    if inp.get('ansatz_points'):
+        why = native_ansatz([tuple(t) for t in inp['ansatz_points']] + ANSATZ_POINTS)
+        return dict(confirmed=bool(why), input=inp, detail=why or 'fit_function equals the ansatz')
+    if inp.get('dists'):
+        why, _ = native_planted(inp['p_th'], inp['nu'], inp['A'], inp['B'], inp['C'], random.Random(0), inp.get('files', 1), tol=0.02 * inp['p_th'], dists=inp['dists'], half_frac=inp.get('half_frac', 0.18))
+        return dict(confirmed=bool(why), input=inp, detail=why or 'planted threshold recovered')
     if inp.get('grids'):
         grids = {int(k): v for k, v in inp['grids'].items()}
         why, _ = native_planted(inp['p_th'], inp['nu'], inp['A'], inp['B'], inp['C'], random.Random(0), inp.get('files', 1), tol=0.02 * inp['p_th'], grids=grids)
@@ -268,6 +302,18 @@ def bounded(tier, seed):
         if all(ests) and not np.allclose(ests[0], ests[1], rtol=1e-6, atol=1e-9):
             viol.append(dict(obligation='C16.bounded.order', input=dict(p_th=g[0]), detail='threshold depends on file/row order: %r vs %r' % (ests[0], ests[1])))
         samples.append(dict(planted=g, reported=ests[0]))
+    why = native_ansatz(ANSATZ_POINTS); ev += 1
+    if why:
+        viol.append(dict(obligation='C16.bounded.ansatz', input=dict(ansatz_points=[list(t) for t in ANSATZ_POINTS[:3]]), detail=why))
+    # high thresholds, wide windows, large distances: (p_max - p_min) d_max^nu is large, so the quadratic leaves [0, 1] at the optimiser's starting point
+    for g, dists_h, hf in (((0.25, 0.9, 0.3, 0.45, 0.15), [5, 9, 13, 17], 0.18), ((0.30, 1.0, 0.3, 0.3, 0.1), [5, 9, 13, 17], 0.15)):
+        try:
+            why, e_ = native_planted(*g, random.Random(seed), 1, tol=0.02 * g[0], dists=dists_h, half_frac=hf)
+        except Exception as ex:      # noqa
+            why = 'analysis raises %s: %s' % (type(ex).__name__, str(ex)[:200])
+        ev += 1; nt.add((g, 'high'))
+        if why:
+            viol.append(dict(obligation='C16.bounded.high_threshold', input=dict(p_th=g[0], nu=g[1], A=g[2], B=g[3], C=g[4], files=1, dists=dists_h, half_frac=hf), detail=why))
     # ragged grids: only the smallest code was run at the highest rates and the planted threshold lies beyond the last rate common to all distances
     common = [round(0.080 + 0.005 * j, 6) for j in range(7)]
     for pth_r, extra in ((0.112, [0.115, 0.120]), (0.1135, [0.115, 0.120, 0.125])):
